@@ -688,7 +688,7 @@ func runC16(r *simkit.Run) {
 		m: &c16Model{rows: map[memKey]*metadb.UserChannelMembership{}, cmd: map[memKey]*metadb.UserCMDChannelMembership{},
 			rowBoundary: map[memKey]bool{}, cmdBoundary: map[memKey]bool{}, olderRefused: map[memKey]bool{}},
 		users: []string{"u0", "u1", "u2"}[:1+t.Intn(3)], others: []string{"v0"},
-		chans:  []string{"g", "ga", "h", "g\x00z", "ha"}[:2+t.Intn(4)],
+		chans:    []string{"g", "ga", "h", "g\x00z", "ha"}[:2+t.Intn(4)],
 		tieOrder: map[string]bool{}, srcVer: map[string]uint64{}, lastRow: map[memKey]metadb.UserChannelMembership{}, lastCmd: map[memKey]metadb.UserCMDChannelMembership{},
 	}
 	r.Config["users"], r.Config["channels"], r.Config["faults"], r.Config["steps"] = len(w.users), len(w.chans), faults, steps
